@@ -375,7 +375,9 @@ pub fn main(opts: &Opts) {
         let case = format!("doc:{}", hexs(&doc));
         let evs = tokenize(&doc);
         let (uo, po, lo) = inst_oracles(&evs);
+        progress(&case);
         let real = plan::real_read_installed_xml(doc.clone());
+        progress_idle();
         sink.corr(&case, format!("instev readev {uo} {po} {lo} {evs}"), real.clone());
         sink.count("docs");
         let kind = tag.split('.').nth(1).unwrap_or("").split('@').next().unwrap_or("").to_string();
